@@ -58,7 +58,7 @@ Proof.
       right. eapply explore_false; eauto.
     + left. eapply explore_false; eauto.
   - exfalso. apply Hn.
-    destruct (if keep1 then graftp o tol s tf l1 false Indet 0 q1 k2 else (CU, k2)) as [c1 k3].
-    destruct (if keep0 then graftp o tol s tf l0 false Indet 0 q0 k3 else (CU, k3)) as [c0 k4].
+    destruct (if keep1 then graftp o tol s tf l1 false Indet new_idx q1 k2 else (CU, k2)) as [c1 k3].
+    destruct (if keep0 then graftp o tol s tf l0 false Indet new_idx q0 k3 else (CU, k3)) as [c0 k4].
     cbn [fst is_dec_at]. auto.
 Qed.
